@@ -71,8 +71,18 @@ theorem field_empty_buffer (c0 c1 : Nat) : fieldOf [] c0 c1 none none = .ok [] :
 theorem field_selected_char (gs : List Gr) (c0 c1 s e : Nat) (a : SelAnchor) (hs : s ≤ e) (he : e < gs.length) :
     fieldOf gs c0 c1 (some (.char a)) (some (.oneDim s e))
       = .ok (((gs.drop s).take (e + 1 - s)).flatten) := by
+  have hm : min (e + 1) gs.length = e + 1 := by omega
   have hcond : s < gs.length ∧ e + 1 ≤ gs.length ∧ s ≤ e + 1 := by omega
-  simp [fieldOf, selectedContent, sliceGs, hcond]
+  simp [fieldOf, selectedContent, sliceGs, hcond, hm]
+
+/-- A charwise selection whose end is the end-of-text position (visual mode lets the cursor sit there)
+selects through the last character. -/
+theorem field_selected_char_at_end (gs : List Gr) (c0 c1 s e : Nat) (a : SelAnchor) (hs : s < gs.length) (he : gs.length ≤ e) :
+    fieldOf gs c0 c1 (some (.char a)) (some (.oneDim s e)) = .ok ((gs.drop s).flatten) := by
+  have hm : min (e + 1) gs.length = gs.length := by omega
+  have hcond : s < gs.length ∧ s ≤ gs.length := by omega
+  have ht : (gs.drop s).take (gs.length - s) = gs.drop s := List.take_of_length_le (by simp)
+  simp [fieldOf, selectedContent, sliceGs, hcond, hm, ht]
 
 /-- **Linewise selection:** the graphemes `s .. e` (whole lines; `e` is the exclusive end that
 `line_bounds` gives). -/
@@ -87,17 +97,23 @@ theorem field_selected_block (gs : List Gr) (c0 c1 : Nat) (m : Option SelMode) (
       = .ok (joinWith ['\n'] (ws.filterMap (fun w => sliceGs gs w.1 w.2))) := by
   simp [fieldOf, selectedContent]
 
-/-- The only way `read_field` can panic: a charwise selection whose end is the last position *plus
-one* (or a line selection past the end) — i.e. a selection that is not inside the text. Under C09's
-invariant (`e < n`) it cannot happen. -/
-theorem field_selected_no_panic (gs : List Gr) (c0 c1 s e : Nat) (a : SelAnchor) (hs : s ≤ e) (he : e < gs.length) :
-    fieldOf gs c0 c1 (some (.char a)) (some (.oneDim s e)) ≠ .error .panic := by
-  rw [field_selected_char gs c0 c1 s e a hs he]; simp
+/-- **`read_field` never panics**, whatever the cursors, the selection and the text (after the fix: the
+end of a charwise selection is clamped and an unsliceable selection gives the empty field). -/
+theorem field_never_panics (gs : List Gr) (c0 c1 : Nat) (m : Option SelMode) (r : Option SelRange) :
+    fieldOf gs c0 c1 m r ≠ .error .panic := by
+  unfold fieldOf
+  cases r with
+  | some r => simp only; split <;> simp
+  | none =>
+    simp only
+    split
+    · simp
+    · split <;> simp
 
-/-- … and it does happen when the selection ends at `n` (entering `v` on the last character selects
-`(c, c+1)`; kept as a kernel-checked witness of known finding `select.v_range_plus_one`). -/
-theorem field_panics_on_selection_past_end :
-    fieldOf [['a'], ['b'], ['c']] 2 2 (some (.char .start)) (some (.oneDim 2 3)) = .error .panic := by rfl
+/-- Before the fix a selection ending at the last position plus one (or at the end of the text) made
+`selected_content()` return `None`, which `read_field` unwrapped: `printf ab | vicut -c 'v$'` panicked. -/
+def fieldOfLegacySel (gs : List Gr) (s e : Nat) : Option Str := sliceGs gs s (e + 1)
+theorem legacy_selection_past_end_is_none : fieldOfLegacySel [['a'], ['b']] 0 2 = none := by rfl
 
 /-! ## Non-vacuity -/
 example : fieldOf [['h'], ['é'], ['l'], ['l'], ['o']] 3 1 none none = .ok ['é', 'l', 'l'] := by rfl
